@@ -10,6 +10,17 @@ Three kinds of cases (harness/src/bin/c14.rs):
           located, line inside the source and equal to the line of the range start, range a valid slice,
           no formatting panics, debug on = debug off, debug build = release build, planted run-time error
           reported at the planted line, and the N-shift relation between the variants.
+
+What "a line inside the source" means here (Error::line is documented as "the line number where the error
+occurred", Error::range as "the byte range of where the error occurred"; the engine, like Rust's str::lines, breaks
+lines at "\n" only, so "\r\n" ends a line and a lone "\r" does not): the line of a position is 1 + the number of
+"\n" in front of it.  A source therefore has 1 + count("\n") lines: the empty source has one (empty) line, and the
+text after a trailing newline is a line of its own - an error at the very end of "{# never closed\n" (with
+keep_trailing_newline, so that the newline is part of what is tokenized) is on line 2, and 2 is inside the source.
+An error is *located* when it has a name and 1 <= line <= 1 + count("\n"), and when it has a range, the line is the
+line of the start of the range.  This holds for every whitespace configuration (keep_trailing_newline, trim_blocks,
+lstrip_blocks), for every way of getting at a template (loader, add_template_owned, template_from_str = render_str,
+template_from_named_str) and for the expression API (compile_expression / eval, name "<expression>").
 """
 import os, sys, collections, concurrent.futures
 sys.path.insert(0, os.path.dirname(os.path.dirname(os.path.abspath(__file__))))
@@ -259,6 +270,104 @@ def build_fuel_groups(chk):
     return groups
 
 
+WS_ALL = [0, 2, 4, 6, 8, 10, 12, 14]   # bit1 keep_trailing_newline, bit2 trim_blocks, bit3 lstrip_blocks
+EOI_OPENERS = ["{#", "{# never closed", "{#-", "{% raw %}x", "{% raw -%} y", "{{ '", "{{ \"abc", "{{", "{%", "{%-", "{% if x %}", "{{ a +",
+               "{% for x in seq %}\ny", "{{ (", "{{ x", "{% if x", "{{ 1 }}{% endif", "text only", "{{ one // zero }}", "{% include 'missing' %}", ""]
+EOI_PREFIXES = ["", "\n", "x\n", "a\r\nb\r\n", "a\rb\r", "é€\n\n", "{{ 1 }}\n", "{% if one %}\n"]
+EOI_TRAILERS = ["", "\n", "\n\n", "\r\n", "\r", "\n\r\n", " \n", "\n ", "\n\n\n"]
+
+
+def build_eoi_groups(chk):
+    """failing constructs at the very end of the input, after trailing newlines, in empty sources and in sources that
+    consist of newlines only, under every whitespace configuration and through every template API"""
+    rng = chk.rng
+    groups = []
+    k = 0
+    for pre in EOI_PREFIXES:
+        for op in EOI_OPENERS:
+            for tr in EOI_TRAILERS:
+                text = pre + op + tr
+                if chk.thorough:
+                    combos = [(ws, api) for ws in WS_ALL for api in (0, 1, 2, 3)]
+                else:
+                    combos = [(2, k % 4), (rng.choice(WS_ALL), rng.below(4)), (14, (k + 1) % 4)]
+                    if rng.chance(1, 3):
+                        combos.append((0, rng.below(4)))
+                k += 1
+                for ws, api in combos:
+                    variants = [{"n": 0, "h": 0, "pb": 0, "hb": 0, "at": 0, "tpls": [[(1, text)]]}]
+                    # (nothing is inserted above an empty text: the last inserted newline would become the
+                    # trailing newline that Tokenizer::new strips)
+                    if text != "" and rng.chance(1, 3):
+                        nl = rng.choice([1, 2, 17])
+                        pad = rng.choice(["x\n", "p€d\r\n", "\n"])
+                        variants.append({"n": nl, "h": 0, "pb": nl * blen(pad), "hb": 0, "at": 0, "where": "top", "pad": pad,
+                                         "tpls": [[(nl, pad), (1, text)]]})
+                    groups.append({"family": "syntax", "base": "eoi", "mutation": "eoi:%r+%r+%r ws=%d api=%d" % (pre, op, tr, ws, api), "which": 0,
+                                   "flags": ws | (api << 4), "variants": variants})
+    return groups
+
+
+EXPRS = ["", " ", "\t", "\n", "\n\n ", "\r\n", "(", "1 +", "1 +\n", "a.\n", "[1,\n2", "'abc", "\"a\nb", "1 2", "€", "a b", "a[", "{", "1 if",
+         "\n\n)", "x(\n1,\n", "99999999999999999999999999999999999999999", "1_", "a\r\n+\r\n", "not", "a ~", "{'a':", "a is", "a|", "é",
+         # errors while evaluating
+         "one // zero", "\n\none // zero", "s|nofilter", "undef.x", "seq[\n one // zero]", "nofunc()\n", "s is notest", "[1,\r\n 2,\r\n one % zero]",
+         "m.a.b.c", "seq|join(1,2,3)", "s.nomethod()\n\n", "(one,\n zero,\n one // zero)", "{'k': 1 // zero}", "1 if one // zero else 2",
+         "t€xt ~ 'é' ~ (one // zero)", "seq|map('nofilter')|list", "range(1, 2, 0)|list"]
+
+
+def build_expr_groups(chk):
+    """Environment::compile_expression + Expression::eval: empty, blank, truncated and multi-line expressions"""
+    rng = chk.rng
+    groups = []
+    for text in EXPRS:
+        for ws in (WS_ALL if chk.thorough else [0, rng.choice(WS_ALL[1:])]):
+            variants = [{"n": 0, "h": 0, "pb": 0, "hb": 0, "at": 0, "tpls": [[(1, text)]]}]
+            for nl in ([] if text == "" else [1, 3, 255] if chk.thorough else [rng.choice([1, 3]), 255]):
+                pad = rng.choice(["\n", "\r\n", " \n"])
+                variants.append({"n": nl, "h": 0, "pb": nl * blen(pad), "hb": 0, "at": 0, "where": "top", "pad": pad,
+                                 "tpls": [[(nl, pad), (1, text)]]})
+            hn = rng.choice([1, 7])
+            variants.append({"n": 0, "h": hn, "pb": 0, "hb": hn, "at": 0, "where": "top", "pad": " ", "tpls": [[(hn, " "), (1, text)]]})
+            groups.append({"family": "expr", "construct": "expression", "plant": text, "which": 0, "flags": 64 | ws, "variants": variants})
+    return groups
+
+
+def build_lineending_groups(chk):
+    """the run-time families with \\r\\n and lone \\r line endings, through every API"""
+    rng = chk.rng
+    groups = []
+    combos = [(cname, tpls, plant) for cname, tpls in CONSTRUCTS for plant in PLANTS] + SPECIALS
+    for cname, tpls, (ptext, pkind, poff) in combos:
+        which = [i for i, t in enumerate(tpls) if "@" in t][0]
+        for nl in (("\r\n", "\r") if chk.thorough else (rng.choice(["\r\n", "\r\n", "\r"]),)):
+            apis = [0, 1] + ([2, 3] if len(tpls) == 1 else [])
+            for api in (apis if chk.thorough else [rng.choice(apis)]):
+                t = tpls[which]
+                at = t.index("@")
+                pre = t[:at].replace("\n", nl)
+                post = t[at + 1:].replace("\n", nl)
+                plant = ptext.replace("\n", nl)
+                # the failing part of the plant starts after `poff` line ends of the plant
+                cut = 0
+                for _ in range(poff):
+                    cut = plant.index(nl, cut) + len(nl)
+                pline = 1 + (pre + plant[:cut]).count("\n")
+                base = [[(1, x.replace("\n", nl))] for x in tpls]
+                base[which] = [(1, pre + plant + post)]
+                variants = [{"n": 0, "h": 0, "pb": 0, "hb": 0, "at": 0, "tpls": base}]
+                n = rng.choice([1, 2, 17])
+                pad = "x" + nl
+                padded = [list(x) for x in base]
+                padded[which] = [(n, pad)] + padded[which]
+                # lone \r does not end a line: the inserted text then shifts offsets only
+                variants.append({"n": n if "\n" in nl else 0, "h": 0, "pb": n * blen(pad), "hb": 0, "at": 0, "where": "top", "pad": pad, "tpls": padded})
+                ws = rng.choice(WS_ALL)
+                groups.append({"family": "runtime", "construct": cname + (":crlf" if "\n" in nl else ":cr"), "plant": ptext, "which": which,
+                               "pline": pline, "pstart": pline, "pkind": pkind, "flags": ws | (api << 4), "variants": variants})
+    return groups
+
+
 def build_syntax_groups(chk):
     """failing templates from mutations; each group: base variant + top insertions"""
     rng = chk.rng
@@ -296,7 +405,9 @@ def build_syntax_groups(chk):
             hpad = " " if hn > 1000 else rng.choice(HPADS)
             variants.append({"n": 0, "h": hn, "pb": 0, "hb": hn * blen(hpad), "at": 0, "where": "top", "pad": hpad,
                              "tpls": [[(hn, hpad), (1, text)]]})
-        groups.append({"family": "syntax", "base": bi, "mutation": name, "which": 0, "variants": variants})
+        ws = rng.choice(WS_ALL) if (chk.thorough or rng.chance(2, 5)) else 0
+        api = rng.below(4) if rng.chance(1, 2) else 0
+        groups.append({"family": "syntax", "base": bi, "mutation": name, "which": 0, "flags": ws | (api << 4), "variants": variants})
     return groups
 
 
@@ -475,7 +586,8 @@ def main():
         else:
             groups, tokcases, tabcases = [], [], [rp["case"]]
     else:
-        groups = build_syntax_groups(chk) + build_runtime_groups(chk) + build_fuel_groups(chk)
+        groups = (build_syntax_groups(chk) + build_eoi_groups(chk) + build_runtime_groups(chk) + build_lineending_groups(chk)
+                  + build_expr_groups(chk) + build_fuel_groups(chk))
         tabcases = build_table_cases(chk)
         tokcases = None
 
@@ -505,7 +617,10 @@ def main():
             hist["%s:%s" % (g["family"], ERR_NAMES.get(e["kind"], e["kind"]))] += 1
             hist["chain_len=%d" % len(base[1][1])] += 1
             for v in g["variants"]:
-                nontriv.add((g["family"], g.get("construct", g.get("base")), g.get("plant", g.get("mutation")), v["n"], v["h"], v.get("where"), v.get("pad")))
+                nontriv.add((g["family"], g.get("construct", g.get("base")), g.get("plant", g.get("mutation")), g.get("flags", 0), v["n"], v["h"], v.get("where"), v.get("pad")))
+            fl = g.get("flags", 0)
+            hist["whitespace_config=%d" % (fl & 14)] += 1
+            hist["api=%s" % ("expression" if fl & 64 else ["loader", "add_template_owned", "template_from_str", "template_from_named_str"][(fl >> 4) & 3])] += 1
         elif base and base[1][0] == 0:
             hist["%s:no-error" % g["family"]] += 1
         if fails:
@@ -520,7 +635,7 @@ def main():
             if g["family"] != "syntax":
                 continue
             for v in g["variants"]:
-                c = case_tok(v["tpls"][0])
+                c = case_tok(v["tpls"][0], g.get("flags", 0) & 14)
                 if tuple(c) not in seen:
                     seen.add(tuple(c)); tokcases.append(c)
         rng = chk.rng
@@ -546,7 +661,9 @@ def main():
     tok_mism = []
     unsupported = 0
     for i, c in enumerate(tokcases):
-        if tok["model"][i] == [7]:
+        if tok["model"][i] == [7] or (c[1] & 12):
+            # raw blocks, floats, ... and trim_blocks / lstrip_blocks are outside the modelled fragment: these sources are
+            # still checked with the spec on the implementation's own spans
             unsupported += 1
             continue
         for rel in (False, True):
@@ -569,11 +686,11 @@ def main():
             continue
         for vi, v in enumerate(g["variants"]):
             r = outs[gi][False][vi]
-            i = tokmap.get(tuple(case_tok(v["tpls"][0])))
+            i = tokmap.get(tuple(case_tok(v["tpls"][0], g.get("flags", 0) & 14)))
             if r is None or i is None or r[1][0] != 1 or not r[1][1]:
                 continue
             e = r[1][1][0]
-            o = tok["model"][i] if tok["model"][i] and tok["model"][i][0] == 0 else tok["impl"][False][i]
+            o = tok["model"][i] if tok["model"][i] and tok["model"][i][0] == 0 and not (tokcases[i][1] & 12) else tok["impl"][False][i]
             if not o or o[0] != 0 or e["kind"] != 4 or e["rtag"] != 1:
                 continue
             nt = o[1]
@@ -594,12 +711,12 @@ def main():
         seen3 = set()
         for gi, g in enumerate(groups):
             for vi, v in enumerate(g["variants"]):
-                if g["family"] == "syntax" and vi > 1:
+                if (g["family"] == "syntax" and vi > 1) or g["family"] == "expr":
                     continue
                 if v["n"] > 300 or v["h"] > 300:
                     continue
                 for ti, t in enumerate(v["tpls"]):
-                    c = [3, 0] + enc_src(t)
+                    c = [3, g.get("flags", 0) & 14] + enc_src(t)
                     if tuple(c) in seen3:
                         continue
                     seen3.add(tuple(c)); stat_cases.append(c); stat_meta.append((gi, vi, ti))
@@ -664,7 +781,7 @@ def main():
                        "distinct tokenizer source with more than one token, distinct table sequence of >= 3 operations" % (len(groups), nvar, len(tokcases), len(tabcases)))
     chk.cov["exhaustive"] = False
     chk.cov["distribution"] = dict(hist)
-    chk.cov["groups"] = {f: sum(1 for g in groups if g["family"] == f) for f in ("syntax", "runtime", "fuel")}
+    chk.cov["groups"] = {f: sum(1 for g in groups if g["family"] == f) for f in ("syntax", "runtime", "expr", "fuel")}
     chk.cov["inserted_lines_tested"] = sorted({v["n"] for g in groups for v in g["variants"]})
     chk.cov["inserted_columns_tested"] = sorted({v["h"] for g in groups for v in g["variants"]})
     chk.cov["tokenizer"] = {"cases": len(tokcases), "outside_modelled_fragment": unsupported, "impl_vs_model_disagreements": len(tok_mism),
@@ -679,13 +796,23 @@ def main():
     known_fixed = 0
     # one report per class of failure (digits / quoted parts of the message dropped), at most 12
     seen_cls = collections.Counter()
+    kf = chk.match_known(lambda k: k["id"] == "empty-expression-unlocated")
     for gi, fails in pipe_fail:
+        g = groups[gi]
+        blank_expr = bool(g.get("flags", 0) & 64) and text_of(g["variants"][0]["tpls"][0]).strip() == ""
         for what, vi in fails:
+            if kf and blank_expr and ("does not name a template and a line (name=0 line=0)" in what
+                                      or ": line 0 outside the" in what or ": line 0 but the range starts on line" in what
+                                      or (what.startswith("inserting") and "expected (kind,name,line,range)=(4, 0, 0," in what)):
+                # known finding: exactly the unlocated end-of-input error of a blank expression; anything else
+                # about these inputs (invalid range, formatting panic, ...) is still a violation
+                chk.known_finding(kf["id"], "compile_expression(%r): 'unexpected end of input' carries no line (Error::line() is None, range 0..0)"
+                                  % text_of(g["variants"][0]["tpls"][0]))
+                continue
             cls = re.sub(r"\d+|\(.*?\)", "#", what)
             if seen_cls[cls] >= 1 or len(seen_cls) >= 12:
                 continue
             seen_cls[cls] += 1
-            g = groups[gi]
             chk.violation("error location property fails: " + what,
                           {"group": g, "failing_variant": vi, "describe": describe_group(g, vi), "all_failures": [f for f, _ in fails][:8],
                            "how": "./check C14 --replay <this file>"})
